@@ -25,6 +25,8 @@ def source_kind(n):
         return fn
     if cal == 'libcellml::mathmlChildNode':
         return 'mathmlChildNode'
+    if cal == 'libcellml::nonCommentChildNode':
+        return 'nonCommentChildNode'
     if cal == 'std::dynamic_pointer_cast':
         return 'dynamic_pointer_cast'
     if fn == 'lock' and 'weak_ptr' in n.get('cls', ''):
@@ -133,6 +135,21 @@ def discharged(F, f, src, kind, deref, var):
     if not var and (path(src) in nn or render(src) in nn):
         return 'null-tested'
     rc = ff(f).rendered_conds_at(deref) or set()
+    if kind in ('nonCommentChildNode', 'mathmlChildNode') and len(src.get('c', [])) == 2:
+        # guarded by a count of the same node: nonCommentChildCount(x) == K (or != K false) with K > index
+        import re as _re
+        node_t, idx_t = render(src['c'][0]), render(src['c'][1])
+        cnt = 'nonCommentChildCount' if kind == 'nonCommentChildNode' else 'mathmlChildCount'
+        if idx_t.isdigit():
+            for c_, t_ in rc:
+                m_ = _re.match(r'^%s\(%s\) (==|!=|>|>=) (\d+)$' % (cnt, _re.escape(node_t)), c_)
+                if not m_:
+                    continue
+                op_, k_ = m_.group(1), int(m_.group(2))
+                if ((op_ == '==' and t_) or (op_ == '!=' and not t_)) and k_ > int(idx_t):
+                    return 'under %s(%s) == %d' % (cnt, node_t, k_)
+                if t_ and ((op_ == '>' and k_ >= int(idx_t)) or (op_ == '>=' and k_ > int(idx_t))):
+                    return 'under %s' % c_
     obj = receiver(src) if src.get('mc') else None
     ot = render(obj) if obj is not None else None
     if kind == 'importSource' and ot is not None:
